@@ -31,7 +31,9 @@ func verifNativeParse(text string, subst map[string]string) (*cypher.RegularQuer
 
 func verifKindMapper() pgsql.KindMapper {
 	m := pgutil.NewInMemoryKindMapper()
-	for _, k := range []string{"NodeKind1", "NodeKind2", "EdgeKind1", "EdgeKind2", "User", "Group", "Computer", "MemberOf", "AdminTo"} {
+	for _, k := range []string{"NodeKind1", "NodeKind2", "EdgeKind1", "EdgeKind2", "Computer", "User", "HasSession", "GPO", "OU", "Base", "GPLink", "Contains", "Group",
+		"AddAllowedToAct", "AddMember", "AdminTo", "AllExtendedRights", "AllowedToDelegate", "CanRDP", "ForceChangePassword", "GenericAll", "GenericWrite",
+		"GetChangesAll", "GetChanges", "MemberOf", "Owns", "ReadLAPSPassword", "SQLAdmin", "TrustedBy", "WriteAccountRestrictions", "WriteOwner", "AZUser"} {
 		m.Put(graph.StringKind(k))
 	}
 	return m
